@@ -313,8 +313,10 @@ impl<W: WriteColor> SearchWorker<W> {
             )
         })?;
         let result = self.search_reader(path, &mut rdr).map_err(|err| {
+            // Keep the kind of the error, so that a broken pipe on our own
+            // output is still recognized as such by the caller.
             io::Error::new(
-                io::ErrorKind::Other,
+                err.kind(),
                 format!("preprocessor command failed: '{:?}': {}", cmd, err),
             )
         });
